@@ -110,7 +110,9 @@ def step(cfg, obj, q, g, a, m, dt=None):
     kd = {} if dt is None else {"dt": dt}
     if f == "AngularRate":
         kw = kwargs_of(cfg)
-        return np.asarray(obj.update(q, g, method=kw.get("method", "closed"), order=kw.get("order", 1), **kd), dtype=float)
+        # options the configuration does not name are left to the method's own defaults (as they are left to the constructor's in batch())
+        opt = {k_: kw[k_] for k_ in ("method", "order") if k_ in kw}
+        return np.asarray(obj.update(q, g, **opt, **kd), dtype=float)
     if f in ("Madgwick", "Mahony", "AQUA"):
         if arch == "MARG":
             return np.asarray(obj.updateMARG(q, g, a, m, **kd), dtype=float)
